@@ -69,6 +69,22 @@ func introspect(r *rux.Router, which int) {
 	}
 }
 
+// superfluousEscape percent-encodes the first ASCII letter or digit of an otherwise escaped path ("" if there is none).
+func superfluousEscape(path string) string {
+	esc := (&url.URL{Path: path}).EscapedPath()
+	for i := 0; i < len(esc); i++ {
+		c := esc[i]
+		if c == '%' {
+			i += 2
+			continue
+		}
+		if (c >= 'a' && c <= 'z') || (c >= 'A' && c <= 'Z') || (c >= '0' && c <= '9') {
+			return esc[:i] + fmt.Sprintf("%%%02X", c) + esc[i+1:]
+		}
+	}
+	return ""
+}
+
 // checkProbe compares rux with the model for one (method, path); it returns an error text or "".
 func checkProbe(r *rux.Router, tb *model.Table, method, path string) string {
 	res := tb.Resolve(method, path)
@@ -83,6 +99,19 @@ func checkProbe(r *rux.Router, tb *model.Table, method, path string) string {
 	for _, m := range []string{strings.ToLower(method), method[:1] + strings.ToLower(method[1:])} {
 		if rt, _, _ := r.Match(m, path); model.RouteIndex(rt) != res.Route {
 			return fmt.Sprintf("Match(%s,%q): got route %d, Match(%s,...) gave %d\n table: %s", m, path, model.RouteIndex(rt), method, res.Route, tb)
+		}
+	}
+	// the same path sent with a superfluous percent escape (an unreserved character escaped): the decoded path is what
+	// the router matches (UseEncodedPath is off here), so the answer is the same
+	if raw := superfluousEscape(path); raw != "" {
+		if u, err := url.ParseRequestURI(raw); err == nil && u.Path == path {
+			rec := httptest.NewRecorder()
+			r.ServeHTTP(rec, &http.Request{Method: method, URL: u, RequestURI: raw, Header: http.Header{}, Proto: "HTTP/1.1"})
+			plainCode, plainBody := serve(r, method, path)
+			if rec.Code != plainCode || rec.Body.String() != plainBody {
+				return fmt.Sprintf("ServeHTTP(%s, raw %q): %d %q, the decoded path %q alone gives %d %q\n table: %s", method, raw, rec.Code, rec.Body.String(), path, plainCode, plainBody, tb)
+			}
+			ev.Class("request-with-a-superfluous-percent-escape")
 		}
 	}
 	code, body := serve(r, method, path)
